@@ -84,12 +84,14 @@ def rel_alphabet(eng, ent, attr, cap=16, scalars=False):
     A = sorted(st.of_entity(ent))[:2]
     B = sorted(st.of_entity(a.target))[:2]
     # prefer a primary object that already has a link, so that removals are meaningful
-    linked = [o for o in sorted(st.of_entity(ent)) if st.objs[o].vals.get(attr)]
+    # the object with the most links first: a partially loaded collection needs a second item to be wrong about
+    linked = sorted([o for o in sorted(st.of_entity(ent)) if st.objs[o].vals.get(attr)],
+                    key=lambda o: -(len(st.objs[o].vals[attr]) if isinstance(st.objs[o].vals[attr], set) else 1))
     if linked and linked[0] not in A[:1]: A = [linked[0]] + [x for x in A if x != linked[0]][:1]
     if linked:
         cur = st.objs[linked[0]].vals.get(attr)
         cur = sorted(cur) if isinstance(cur, set) else [cur]
-        B = cur[:1] + [x for x in sorted(st.of_entity(a.target)) if x not in cur[:1]][:1]
+        B = cur[:2] if len(cur) >= 2 else cur[:1] + [x for x in sorted(st.of_entity(a.target)) if x not in cur[:1]][:1]
     ops = [{'op': 'flush'}]
     # one object written on its own by obj.flush() (the collections of its partners keep their pending bookkeeping)
     for o in dict.fromkeys(A[:1] + B[:1]): ops.append({'op': 'flush', 'oid': o})
@@ -107,9 +109,11 @@ def rel_alphabet(eng, ent, attr, cap=16, scalars=False):
                 for how in ('count', 'len', 'empty', 'iter'):
                     out.append({'op': 'coll', 'oid': o, 'attr': at.name, 'how': how})
             else:
-                for x in others:
+                for i, x in enumerate(others):
                     if x == o: continue
                     out.append({'op': 'set', 'oid': o, 'attr': at.name, 'val': {'ref': x}})
+                    # the same assignment through obj.set(**kwargs)
+                    if i == 0 and not at.is_pk: out.append({'op': 'setmany', 'oid': o, 'kw': {at.name: {'ref': x}}})
                 if not at.required: out.append({'op': 'set', 'oid': o, 'attr': at.name, 'val': {'ref': None}})
                 out.append({'op': 'read', 'oid': o, 'attr': at.name})
         return out
